@@ -47,12 +47,15 @@ Definition wire_format (t : tx) (b : bytes) : Prop :=
 (* ---- field ranges ------------------------------------------------------------------------------- *)
 Definition u32 (z : Z) : Prop := 0 <= z < 2 ^ 32.
 Definition u64 (z : Z) : Prop := 0 <= z < 2 ^ 64.
-Definition len64 {A} (l : list A) : Prop := zlen l < 2 ^ 64.     (* always true of a real list *)
+Definition len64 {A} (l : list A) : Prop := zlen l < 2 ^ 64.     (* element counts; always true of a real list *)
+(* byte strings: CPython's f.read(n) raises OverflowError for n >= 2^63, so a declared length of 2^63 or more
+   never parses; also always true of a real bytes object *)
+Definition len63 (l : bytes) : Prop := zlen l < 2 ^ 63.
 
 Definition txin_wf (i : txin) : Prop :=
-  length (ti_hash i) = 32%nat /\ u32 (ti_index i) /\ u32 (ti_sequence i) /\ len64 (ti_script i)
-  /\ len64 (ti_witness i) /\ Forall len64 (ti_witness i).
-Definition txout_wf (o : txout) : Prop := u64 (to_value o) /\ len64 (to_script o).
+  length (ti_hash i) = 32%nat /\ u32 (ti_index i) /\ u32 (ti_sequence i) /\ len63 (ti_script i)
+  /\ len64 (ti_witness i) /\ Forall len63 (ti_witness i).
+Definition txout_wf (o : txout) : Prop := u64 (to_value o) /\ len63 (to_script o).
 Definition tx_wf (t : tx) : Prop :=
   u32 (tx_version t) /\ u32 (tx_lock_time t) /\ Forall txin_wf (tx_ins t) /\ Forall txout_wf (tx_outs t)
   /\ len64 (tx_ins t) /\ len64 (tx_outs t).
@@ -68,7 +71,7 @@ Definition ser_unspents (us : list txout) : bytes := concat (map ser_txout us).
 
 (* binary spendable record: txout | tx hash(32) | index(4 LE) | CompactSize | bool byte | CompactSize *)
 Definition spendable_wf (sp : spendable) : Prop :=
-  u64 (sp_value sp) /\ len64 (sp_script sp) /\ length (sp_tx_hash sp) = 32%nat /\ u32 (sp_index sp)
+  u64 (sp_value sp) /\ len63 (sp_script sp) /\ length (sp_tx_hash sp) = 32%nat /\ u32 (sp_index sp)
   /\ u64 (sp_block_index_available sp) /\ (sp_does_seem_spent sp = 0 \/ sp_does_seem_spent sp = 1)
   /\ u64 (sp_block_index_spent sp).
 Definition ser_spendable (sp : spendable) : bytes :=
